@@ -218,6 +218,22 @@ func (c *c06Ctx) classify(e ast.Expr, fn *c06Fn, use token.Pos, depth int) int {
 			return pvBinding
 		case "Value":
 			if in, ok := x.X.(*ast.SelectorExpr); ok && in.Sel.Name == "Alias" {
+				// <x>.Alias.Value: the alias of a translate.Projection / cypher projection item is the user's spelling;
+				// the alias of a pgsql.AliasedExpression picked out of an SQL projection by a type switch is generated
+				if id, isIdent := in.X.(*ast.Ident); isIdent && fn != nil {
+					defs := c.collectDefs(fn.decl)[id.Name]
+					var best *c06Def
+					for i := range defs {
+						if defs[i].pos <= use && (best == nil || defs[i].pos >= best.pos) {
+							best = &defs[i]
+						}
+					}
+					if best != nil {
+						if _, isAssert := best.rhs.(*ast.TypeAssertExpr); best.kind == "typeswitch" || isAssert {
+							return pvOperand
+						}
+					}
+				}
 				return pvUser
 			}
 		}
@@ -546,12 +562,112 @@ func c06Facts(repo string, w *strings.Builder) error {
 		fmt.Fprintf(w, "  ⟨%s, %d, %s, %d, %d, %v, %v, %v, %v, %s⟩%s\n", leanStr(s.file), s.line, leanStr(s.fn), s.method, s.prov, s.fallback, s.internal, s.fresh, s.inParam, leanStr(s.text), sep)
 	}
 	w.WriteString("]\n\n")
+	c06Mixed(ctx, fset, names, w)
 	if err := c06Generator(repo, ctx, w); err != nil {
 		return err
 	}
 	w.WriteString("\nend Dawgs.Generated.C06Sites\n")
 	return nil
 }
+
+// c06Mixed lists (a) every `==` / `!=` whose operands are one purely user-derived string and one purely generated
+// identifier, (b) every map (struct field, or local variable of one function) that is indexed both by purely
+// user-derived and by purely generated keys. Either mixes the two name spaces the scope keeps apart.
+func c06Mixed(ctx *c06Ctx, fset *token.FileSet, names []string, w *strings.Builder) {
+	const generated = pvBinding | pvSet | pvOperand
+	pure := func(p int) int { // 1 = user only, 2 = generated only, 0 = neither / mixed / unknown
+		switch {
+		case p == pvUser:
+			return 1
+		case p != 0 && p&^generated == 0:
+			return 2
+		}
+		return 0
+	}
+	var cmps, maps []string
+	type keyUse struct{ user, gen []string }
+	for _, n := range names {
+		for _, fn := range ctx.fns[n] {
+			if fn.recv == "Scope" || fn.recv == "IdentifierGenerator" {
+				continue // the scope's own methods work on parameters whose provenance is that of the callers
+			}
+			uses := map[string]*keyUse{}
+			ast.Inspect(fn.decl.Body, func(node ast.Node) bool {
+				switch x := node.(type) {
+				case *ast.BinaryExpr:
+					if x.Op != token.EQL && x.Op != token.NEQ {
+						return true
+					}
+					l, r := pure(ctx.classify(x.X, fn, x.Pos(), 0)), pure(ctx.classify(x.Y, fn, x.Pos(), 0))
+					if l != 0 && r != 0 && l != r {
+						pos := fset.Position(x.Pos())
+						cmps = append(cmps, fmt.Sprintf("%s:%d %s: %s %s %s", fn.file, pos.Line, fn.name, exprText(x.X), x.Op, exprText(x.Y)))
+					}
+				case *ast.IndexExpr:
+					var name string
+					switch b := x.X.(type) {
+					case *ast.SelectorExpr:
+						name = "." + b.Sel.Name
+					case *ast.Ident:
+						name = fn.name + ":" + b.Name
+					default:
+						return true
+					}
+					k := pure(ctx.classify(x.Index, fn, x.Pos(), 0))
+					if k == 0 {
+						return true
+					}
+					u := uses[name]
+					if u == nil {
+						u = &keyUse{}
+						uses[name] = u
+					}
+					pos := fset.Position(x.Pos())
+					at := fmt.Sprintf("%s:%d[%s]", fn.file, pos.Line, exprText(x.Index))
+					if k == 1 {
+						u.user = append(u.user, at)
+					} else {
+						u.gen = append(u.gen, at)
+					}
+				}
+				return true
+			})
+			for name, u := range uses {
+				if strings.HasPrefix(name, ".") {
+					continue // fields are joined across functions below
+				}
+				if len(u.user) > 0 && len(u.gen) > 0 {
+					maps = append(maps, fmt.Sprintf("%s user-keyed at %s, generated-keyed at %s", name, u.user[0], u.gen[0]))
+				}
+			}
+			for name, u := range uses {
+				if strings.HasPrefix(name, ".") {
+					f := c06FieldUses[name]
+					if f == nil {
+						f = &[2][]string{}
+						c06FieldUses[name] = f
+					}
+					f[0] = append(f[0], u.user...)
+					f[1] = append(f[1], u.gen...)
+				}
+			}
+		}
+	}
+	for _, name := range sortedKeys(c06FieldUses) {
+		f := c06FieldUses[name]
+		if len(f[0]) > 0 && len(f[1]) > 0 {
+			maps = append(maps, fmt.Sprintf("field %s user-keyed at %s, generated-keyed at %s", name, f[0][0], f[1][0]))
+		}
+	}
+	sort.Strings(cmps)
+	sort.Strings(maps)
+	w.WriteString("/-- `==` / `!=` between a purely user-derived string and a purely generated identifier -/\n")
+	w.WriteString("def mixedComparisons : List String := " + leanStrList(cmps) + "\n")
+	w.WriteString("/-- maps indexed both by purely user-derived and by purely generated keys (outside the methods of Scope) -/\n")
+	w.WriteString("def mixedKeyMaps : List String := " + leanStrList(maps) + "\n\n")
+}
+
+var c06FieldUses = map[string]*[2][]string{}
 
 // c06Generator extracts the `switch dataType` of IdentifierGenerator.NewIdentifier: for every case the data type
 // constants (by their string VALUES, read from cypher/models/pgsql/pgtypes.go), the prefix, and the data type whose
